@@ -53,7 +53,7 @@ def tlvItems (bs : B) : Outcome String :=
     | .panic => .panic
     | .val after1 =>
       let fused := ended && after1.isNone
-      .val s!"[{",".intercalate parts.toList}] steps={steps} ended={b01 ended} fused={b01 fused} towned=1"
+      .val s!"[{",".intercalate parts.toList}] steps={steps} ended={b01 ended} fused={b01 fused} towned=1 sbytes=1"
 
 def v2Ok (h : Header) : Outcome String := do
   let length ← h.lengthP
@@ -144,6 +144,11 @@ def payload? (s : String) : Option Payload :=
         | _, _ => none
       | none => none
     | "sec" => (bytesSpec? v).map .tlvSection
+    | "seca" =>
+      -- a section whose iterator has been advanced: `as_bytes` is the whole section
+      match splitOnce v ":" with
+      | some (_, b) => (bytesSpec? b).map .tlvSection
+      | none => none
     | "ty" => (tlvType? v).map .type
     | _ => intPayload? k v
 
